@@ -205,6 +205,7 @@ class St:
         self.wide = []        # (kind, base, off, width, line): typed multi-byte accesses through parameter pointers
         self.imprecise = []   # notes: a branch taken without being able to refine
         self.branches = []    # human-readable decisions
+        self.ext = {}         # extension state of derived interpreters: name -> object with .copy()
 
     def copy(self):
         s = St()
@@ -217,6 +218,7 @@ class St:
         s.wide = list(self.wide)
         s.imprecise = list(self.imprecise)
         s.branches = list(self.branches)
+        s.ext = {k: v.copy() for k, v in self.ext.items()}
         return s
 
     # --- facts -------------------------------------------------------------
@@ -998,8 +1000,13 @@ class Interp:
                     yield s2, self._ptrloc(Ptr(p.base, p.off + i.value() * (ti[1] // 8)))
         elif k in ("ImplicitCastExpr", "CStyleCastExpr") and n.get("cast") in ("NoOp", "LValueBitCast"):
             yield from self.lv(st, n["kids"][0], f, depth)
+        elif k == "MemberExpr":
+            yield from self.lv_member(st, n, f, depth)
         else:
             raise BrokenAnalysis("%s: lvalue %s outside the bit domain (%s)" % (f.name, k, self.where(f, n)))
+
+    def lv_member(self, st, n, f, depth):
+        raise BrokenAnalysis("%s: member access outside the bit domain (%s)" % (f.name, self.where(f, n)))
 
     @staticmethod
     def _ptrloc(p):
@@ -1054,6 +1061,12 @@ class Interp:
         elif k in ("ArraySubscriptExpr", "MemberExpr"):
             for s, loc in self.lv(st, n, f, depth):
                 yield s, self.load(s, loc, ti, f, n)
+        elif k == "StmtExpr":
+            # GNU statement expression (glibc's assert): run the block; its value is not used by the codecs
+            for s, sig in self.exec_stmt(st, n["kids"][0], f, depth):
+                if sig is not None:
+                    raise BrokenAnalysis("%s: control leaves a statement expression (%s)" % (f.name, self.where(f, n)))
+                yield s, None
         else:
             raise BrokenAnalysis("%s: expression %s outside the bit domain (%s)" % (f.name, k, self.where(f, n)))
 
@@ -1127,6 +1140,8 @@ class Interp:
         elif op == "+":
             for s, v in self.ev(st, kid, f, depth):
                 yield s, self.convert(v, ti)
+        elif op == "__extension__":
+            yield from self.ev(st, kid, f, depth)
         else:
             raise BrokenAnalysis("%s: unary %s outside the bit domain (%s)" % (f.name, op, self.where(f, n)))
 
